@@ -94,6 +94,9 @@ type ObResult struct {
 	Reached       map[string]bool
 	FeasQueries   int
 	CacheHits     int
+	CrossDone     int
+	Cross         []Sample
+	Disagree      []string
 	BranchUnknown int
 	Stats         SolverStats
 	Wall          time.Duration
@@ -685,6 +688,7 @@ func (in *Interp) checkAssert(c *Term, label string) {
 	switch res {
 	case Unsat:
 		r.Discharged++
+		in.crossCheck(neg, anyKnown, label)
 	case Sat:
 		m := in.model()
 		in.addViolation(&Violation{Label: label, Kind: "assert", Site: in.site(), Model: m, Path: r.Paths})
@@ -718,6 +722,48 @@ func (in *Interp) checkAssert(c *Term, label string) {
 		panic(pathEnd{"done", "assertion cannot hold on this path"})
 	}
 	in.assume(c)
+}
+
+// crossCheck re-decides a sample of discharged obligations with the other
+// installed solvers (one-shot, self-contained script). A solver that answers
+// sat where the primary said unsat is an engine/solver disagreement: the check
+// reports ENGINE-ERROR instead of a verdict.
+var crossSolvers = func() []string {
+	v := os.Getenv("VERIF_CROSS")
+	if v == "" || v == "0" {
+		return nil
+	}
+	if v == "1" {
+		return []string{"z3", "cvc5"}
+	}
+	return strings.Split(v, ",")
+}()
+
+func (in *Interp) crossCheck(neg, anyKnown *Term, label string) {
+	r := in.r
+	if len(crossSolvers) == 0 || r.CrossDone >= 12 {
+		return
+	}
+	// the first few and then every 40th discharged obligation
+	if r.Discharged > 4 && r.Discharged%40 != 0 {
+		return
+	}
+	all := append(append([]*Term{}, in.pc...), in.ts.And(neg, in.ts.Not(anyKnown)))
+	txt, err := Standalone(in.ts, in.ob.Mode, all)
+	if err != nil {
+		return
+	}
+	r.CrossDone++
+	for _, sv := range crossSolvers {
+		if sv == in.sol.name {
+			continue
+		}
+		res, d := RunStandalone(sv, txt, 20000)
+		r.Cross = append(r.Cross, Sample{Obligation: in.ob.ID(), Label: label, Verdict: res.String(), Solver: sv, Mode: in.ob.Mode.String(), Ms: d.Milliseconds(), Note: "cross-check of an obligation " + in.sol.name + " discharged"})
+		if res == Sat {
+			r.Disagree = append(r.Disagree, fmt.Sprintf("%s: %s says sat where %s said unsat (assert %s)", in.ob.ID(), sv, in.sol.name, label))
+		}
+	}
 }
 
 func (in *Interp) reportPanic(gp *goPanic) {
